@@ -45,6 +45,7 @@ const (
 	OpWrite      = "write"      // A = pick, B = mode (0 full,1 partial,2 load+edit), C = seed, D = len param
 	OpWriteMany  = "writemany"  // A = start pick, B = count, C = seed; full overwrites of committed pages
 	OpRead       = "read"       // A = pick
+	OpLoad       = "load"       // A = pick; Page.Load() without modifying the page (no MarkDirty)
 	OpFree       = "free"       // A = pick
 	OpFreeMany   = "freemany"   // A = start pick, B = count, C = stride
 	OpFlushPage  = "flushpage"  // A = pick
